@@ -39,9 +39,11 @@ impl SetLen for Sv {
 /// a root buffer: any of the real buffer types behind compio's `Box<B>` impls
 type M = Box<dyn IoBufMut>;
 
-fn pat(j: usize, i: usize) -> u8 {
-    (1 + ((j * 17 + i) % 120)) as u8
-}
+#[path = "../c10_node.rs"]
+mod node;
+use node::{Node, RootCap, decode_bsteps, pat, run_bsteps};
+
+impl RootCap for M {}
 
 fn arr<const N: usize>(_len: usize) -> M {
     let mut a = [0u8; N];
@@ -129,106 +131,7 @@ fn enc_root(out: &mut Vec<u64>, m: &mut M) {
 }
 
 /// run-time nesting of the real owned views over a base buffer `R`
-enum Node<R> {
-    Root(R),
-    Slice(Slice<Box<Node<R>>>),
-    Uninit(Uninit<Box<Node<R>>>),
-}
-
-impl<R: IoBufMut> IoBuf for Node<R> {
-    fn as_init(&self) -> &[u8] {
-        match self {
-            Node::Root(r) => r.as_init(),
-            Node::Slice(s) => s.as_init(),
-            Node::Uninit(u) => u.as_init(),
-        }
-    }
-}
-impl<R: IoBufMut> IoBufMut for Node<R> {
-    fn as_uninit(&mut self) -> &mut [MaybeUninit<u8>] {
-        match self {
-            Node::Root(r) => r.as_uninit(),
-            Node::Slice(s) => s.as_uninit(),
-            Node::Uninit(u) => u.as_uninit(),
-        }
-    }
-}
-impl<R: IoBufMut> SetLen for Node<R> {
-    unsafe fn set_len(&mut self, len: usize) {
-        unsafe {
-            match self {
-                Node::Root(r) => r.set_len(len),
-                Node::Slice(s) => s.set_len(len),
-                Node::Uninit(u) => u.set_len(len),
-            }
-        }
-    }
-}
-impl<R: IoBufMut> Node<R> {
-    fn into_root(self) -> R {
-        match self {
-            Node::Root(r) => r,
-            Node::Slice(s) => (*s.into_inner()).into_root(),
-            Node::Uninit(u) => (*u.into_inner()).into_root(),
-        }
-    }
-    fn root_mut(&mut self) -> &mut R {
-        match self {
-            Node::Root(r) => r,
-            Node::Slice(s) => s.as_inner_mut().root_mut(),
-            Node::Uninit(u) => u.as_inner_mut().root_mut(),
-        }
-    }
-    fn wrapped(&self) -> bool {
-        !matches!(self, Node::Root(_))
-    }
-    /// IoBufExt::slice with begin / optional end
-    fn wrap_slice(self, b: usize, e: Option<usize>) -> Self {
-        let inner = Box::new(self);
-        Node::Slice(match e {
-            Some(e) => inner.slice(b..e),
-            None => inner.slice(b..),
-        })
-    }
-    fn wrap_uninit(self) -> Self {
-        Node::Uninit(Box::new(self).uninit())
-    }
-    /// write min(k, capacity) pattern bytes at the start of the writable region
-    fn write_pat(&mut self, j: usize, k: usize) {
-        let u = self.as_uninit();
-        let n = k.min(u.len());
-        for i in 0..n {
-            u[i].write(pat(j, i));
-        }
-    }
-}
-
 // ---- buffer cases --------------------------------------------------------
-
-enum BStep {
-    Query,
-    Slice(usize, Option<usize>),
-    Uninit,
-    FillTo(usize),
-    FillAdv(usize),
-    FillSet(usize),
-}
-
-fn query_b(out: &mut Vec<u64>, node: &mut Node<M>, base: usize) {
-    let (ip, il) = {
-        let s = (*node).as_init();
-        (s.as_ptr() as usize, s.len())
-    };
-    let (up, ul) = {
-        let s = (*node).as_uninit();
-        (s.as_ptr() as usize, s.len())
-    };
-    out.push(ip.wrapping_sub(base) as u64);
-    out.push(il as u64);
-    out.push(up.wrapping_sub(base) as u64);
-    out.push(ul as u64);
-    out.push((**node.root_mut()).as_init().len() as u64);
-}
 
 fn run_buffer(c: &mut Case) -> Result<Vec<u64>, BadCase> {
     let kind = c.take()?;
@@ -237,58 +140,11 @@ fn run_buffer(c: &mut Case) -> Result<Vec<u64>, BadCase> {
     if len > 64 || cap > 64 {
         return Err(BadCase);
     }
-    let ns = c.take()?;
-    if ns > 64 {
-        return Err(BadCase);
-    }
-    let mut steps = Vec::new();
-    for _ in 0..ns {
-        let code = c.take()?;
-        let a = c.take()? as usize;
-        let b = c.take()? as usize;
-        steps.push(match code {
-            0 => BStep::Query,
-            1 => BStep::Slice(a, if b == 0 { None } else { Some(b - 1) }),
-            2 => BStep::Uninit,
-            3 => BStep::FillTo(a),
-            4 => BStep::FillAdv(a),
-            5 => BStep::FillSet(a),
-            _ => return Err(BadCase),
-        });
-    }
-    if !c.rest().is_empty() {
-        return Err(BadCase);
-    }
+    let steps = decode_bsteps(c)?;
     let mut root = mk_root(kind, len, cap)?;
     let base = base_of(&mut root);
-    let mut node: Node<M> = Node::Root(root);
     let mut out = Vec::new();
-    let mut j = 0usize;
-    query_b(&mut out, &mut node, base);
-    for st in steps {
-        match st {
-            BStep::Query => {}
-            BStep::Slice(b, e) => node = node.wrap_slice(b, e),
-            BStep::Uninit => node = node.wrap_uninit(),
-            BStep::FillTo(k) => {
-                node.write_pat(j, k);
-                unsafe { node.advance_to(k) };
-                j += 1;
-            }
-            BStep::FillAdv(k) => {
-                node.write_pat(j, k);
-                unsafe { node.advance(k) };
-                j += 1;
-            }
-            BStep::FillSet(k) => {
-                node.write_pat(j, k);
-                unsafe { node.set_len(k) };
-                j += 1;
-            }
-        }
-        query_b(&mut out, &mut node, base);
-    }
-    let mut root = node.into_root();
+    let mut root = run_bsteps(&mut out, root, base, steps);
     enc_root(&mut out, &mut root);
     Ok(out)
 }
